@@ -79,3 +79,45 @@ Proof.
   destruct (codon_index_at s e pos) as [[k|]|]; cbn [bind]; try reflexivity.
   rewrite (k_exon_get_codon_eq e s k Ve). destruct (exon_get_codon s e k); reflexivity.
 Qed.
+
+(* ---- Exon.get_codon_indices: the codon indices of the part of an exon a range covers ---- *)
+From VV Require Import Model.PyLoop Model.CodonsInRange.
+
+Lemma zrl_nil a b : b <= a -> zrange a b = [].
+Proof. intros H. unfold zrange, py_range. replace (Z.to_nat (b - a)) with 0%nat by lia. reflexivity. Qed.
+Lemma zrl_cons a b : a < b -> zrange a b = a :: zrange (a + 1) b.
+Proof.
+  intros H. unfold zrange, py_range. replace (Z.to_nat (b - a)) with (S (Z.to_nat (b - (a + 1)))) by lia.
+  cbn [range_fuel]. rewrite (proj2 (Z.ltb_lt _ _) H). reflexivity.
+Qed.
+Lemma zrl_snoc a b : a <= b -> zrange a (b + 1) = zrange a b ++ [b].
+Proof.
+  intros H. remember (Z.to_nat (b - a)) as k eqn:Hk. revert a H Hk. induction k as [|k IH]; intros a H Hk.
+  - assert (a = b) by lia. subst. rewrite zrl_cons by lia. rewrite !zrl_nil by lia. reflexivity.
+  - rewrite (zrl_cons a (b + 1)) by lia. rewrite (zrl_cons a b) by lia. cbn [app]. f_equal. apply IH; lia.
+Qed.
+
+(* range(a, b, -1) is range(b + 1, a + 1) read backwards *)
+Lemma py_range_down_rev a b : py_range_down a b = rev (zrange (b + 1) (a + 1)).
+Proof.
+  unfold py_range_down. fold (zrange (- a) (- b)).
+  destruct (Z.le_gt_cases a b) as [H|H].
+  - rewrite !zrl_nil by lia. reflexivity.
+  - remember (Z.to_nat (a - b)) as k eqn:Hk. revert a H Hk. induction k as [|k IH]; intros a H Hk; [lia|].
+    rewrite (zrl_cons (- a) (- b)) by lia. cbn [map]. replace (a + 1) with ((a - 1 + 1) + 1) by lia.
+    rewrite zrl_snoc by lia. rewrite rev_app_distr. cbn [rev app]. f_equal; [lia|].
+    destruct (Z.eq_dec (a - 1) b) as [E|E].
+    + replace (- a + 1) with (- b) by lia. rewrite zrl_nil by lia. rewrite zrl_nil by lia. reflexivity.
+    + replace (- a + 1) with (- (a - 1)) by lia. apply IH; lia.
+Qed.
+
+Theorem k_exon_get_codon_indices_eq e s r : range_valid (x_range e) = true -> range_valid r = true ->
+  k_exon_get_codon_indices e s r = codon_indices s e r.
+Proof.
+  intros Ve Vr. unfold k_exon_get_codon_indices, codon_indices. rewrite (k_range_intersect_eq (x_range e) r Ve Vr). cbn [bind].
+  destruct (intersect (x_range e) r) as [t|]; [|reflexivity].
+  rewrite !kl_exon_codon_index_at_eq.
+  destruct (codon_index_at s e (rs t)) as [[f|]|er]; cbn [bind]; try reflexivity.
+  destruct (codon_index_at s e (re t)) as [[l|]|er]; cbn [bind]; try reflexivity.
+  destruct (f <=? l); [reflexivity|]. f_equal. rewrite py_range_down_rev. now replace (l - 1 + 1) with l by lia.
+Qed.
